@@ -160,6 +160,32 @@ theorem block_with_element_child_is_block (tag : Str) (kids : List Node) (h : ki
     (hi : isInline tag = false) (hp : isPhrasing tag = false) : shouldKeepInline tag kids = false := by
   simp [shouldKeepInline, h, hi, hp]
 
+theorem allInline_append (a b : List Node) : allInline (a ++ b) = (allInline a && allInline b) := by
+  induction a with
+  | nil => simp [allInline]
+  | cons n r ih => simp [allInline, ih, Bool.and_assoc]
+
+/-- an element that is neither void nor on the inline list is not inline content, and no container - inline and phrasing ones included -
+    is written on one line when one of its children is such an element -/
+theorem non_inline_child_forces_block (tag t : Str) (pre post : List Node) (attrs : List Attr) (kids : List Node)
+    (hv : isVoid t = false) (hi : isInline t = false) :
+    shouldKeepInline tag (pre ++ .elem t attrs kids :: post) = false := by
+  have hany : (pre ++ Node.elem t attrs kids :: post).any FmtTree.isElem = true := by
+    simp [FmtTree.isElem]
+  have hno : inlineOk (.elem t attrs kids) = false := by simp [inlineOk, hv, hi]
+  have hall : allInline (pre ++ Node.elem t attrs kids :: post) = false := by
+    rw [allInline_append]
+    simp [allInline, hno]
+  simp only [shouldKeepInline, hany, hall]
+  simp
+
+/-- a `<template>` wrapper (a `v-if` / `v-for` wrapper) is such an element (the lists are regenerated from the source): the wrapper and what
+    it wraps - `<pre>`, `<script>`, `<style>` … - go through the block walk, where their content has the treatment it has anywhere else
+    (`pre_content_copied`, `raw_text_content`) -/
+theorem template_child_forces_block (tag : Str) (pre post : List Node) (attrs : List Attr) (kids : List Node) :
+    shouldKeepInline tag (pre ++ .elem "template".toList attrs kids :: post) = false :=
+  non_inline_child_forces_block tag _ pre post attrs kids (by decide) (by decide)
+
 /-- the regenerated lists: `div` is a block, `span` inline, `p` a phrasing container, `br` void -/
 theorem source_lists_sample :
     isInline "div".toList = false ∧ isPhrasing "div".toList = false ∧ isInline "span".toList = true ∧ isPhrasing "p".toList = true ∧ isVoid "br".toList = true
